@@ -57,6 +57,7 @@ for d in sorted(glob.glob(os.path.join(HERE, "seeded", "C*"))):
   meta = {
     "property_id": pid, "property_title": props[pid]["title"], "breaks": props[pid]["statement"][:300],
     "files_changed": files, "change": change[:900], "needs_to_manifest": needs[:1200],
+    "note": r.get("note", ""),
     "origin": "fresh sub-agent given only the property text and a scratch worktree of /repo (nothing from /verif)",
     "confirmed": {"demo_exit_unpatched": r.get("demo_unpatched"), "demo_exit_patched": r.get("demo_patched"),
                   "pinned_suite_with_patch": (suites[pid][0] + " (re-run here in a scratch worktree with the patch applied)") if pid in suites else "158 passed (agent's report)",
